@@ -164,6 +164,13 @@ Definition bounds (t : task) : list bnd := flat_map (fun nv => var_bounds (snd n
 Inductive bside := BSNum (x : xnum) | BSPermLo (n : nat) | BSPermHi (n : nat).
 Definition lower_of (b : bnd) : bside := match b with BNum lo _ => BSNum lo | BPerm n => BSPermLo n end.
 Definition upper_of (b : bnd) : bside := match b with BNum _ hi => BSNum hi | BPerm n => BSPermHi n end.
+(* a child's own get_bounds() *)
+Definition sv_bounds (sv : svar) : bside * bside :=
+  match sv with
+  | SCont lo hi => (BSNum lo, BSNum hi)
+  | SDisc n => (BSNum (xint 0), BSNum (disc_hi n))
+  | SPerm n => (BSPermLo n, BSPermHi n)
+  end.
 Definition lowers (v : var) : list bside := map lower_of (var_bounds v).
 Definition uppers (v : var) : list bside := map upper_of (var_bounds v).
 
